@@ -87,6 +87,13 @@ func c13Jobs(tier string) []Job {
 			"m = macro(u, v){quote(unquote(u) + unquote(v))}", "m(b)", `error("wrong number of macro arguments, want=2, got=1")`, "m"}},
 		Job{Prop: "C13", Pkg: "eval", Func: "VerifMacro", MaxDec: 800, Args: []string{
 			"m = macro(){quote(7)}", "m(println(b))", `error("wrong number of macro arguments, want=0, got=1")`, "m"}},
+		// a macro call inside another macro's template is part of the program once substituted
+		Job{Prop: "C13", Pkg: "eval", Func: "VerifMacro", MaxDec: 800, Args: []string{
+			"m1 = macro(u){quote(unquote(u) * 2)}\nm2 = macro(u){quote(m1(unquote(u)) + 1)}",
+			"m2(b) - m1(c)", "(((b)) * 2 + 1) - ((c) * 2)", "m1,m2"}},
+		Job{Prop: "C13", Pkg: "eval", Func: "VerifMacro", MaxDec: 800, Args: []string{
+			"m1 = macro(u){quote(unquote(u) - 1)}\nm2 = macro(u, v){quote(m1(m1(unquote(u))) * m1(unquote(v)))}",
+			"m2(b, c + 1)", "(((b) - 1) - 1) * ((c + 1) - 1)", "m1,m2"}},
 		// a parameter named like another macro
 		Job{Prop: "C13", Pkg: "eval", Func: "VerifMacro", MaxDec: 800, Args: []string{
 			"am = macro(u){quote(unquote(u) + 1)}\nm = macro(am){quote(unquote(am) * 2)}",
